@@ -200,7 +200,7 @@ def run(tier, seed):
     total = Result()
     rng = random.Random(seed)
     if tier == 'quick':
-        lens, nrand, variants = [1, 2, 3], 300, [('release', 1.0), ('dev', 0.5), ('nightly', 0.5)]
+        lens, nrand, variants = [1, 2, 3, 4], 1500, [('release', 1.0), ('dev', 0.5), ('nightly', 0.5)]
     else:
         lens, nrand, variants = [1, 2, 3, 4], 20000, [('release', 1.0), ('dev', 1.0), ('nightly', 1.0)]
     exhaustive = {L: nondecreasing_vectors(L + 1) for L in lens}
@@ -212,11 +212,6 @@ def run(tier, seed):
             for L, vecs in exhaustive.items():
                 for e in vecs:
                     work.append(('%s%d' % (prefix, L), e, None))
-            if tier == 'quick':
-                # a sample of LEN=4 vectors in quick as well
-                v4 = nondecreasing_vectors(5)
-                for e in rng.sample(v4, 300):
-                    work.append(('%s4' % prefix, e, None))
             for i in range(int(nrand * frac)):
                 L = rng.choice([7, 10, 100])
                 work.append(('%s%d' % (prefix, L), random_edges(rng, L), None))
